@@ -305,6 +305,18 @@ pub fn gen_c09(rng: &mut Rng, thorough: bool, emit: &mut dyn FnMut(StreamCase)) 
             emit(c);
         }
     }
+    // one large incompressible write (or write_all) whose length lies around the point where the encoder's
+    // second stored block no longer fits its output buffer, then flush at once
+    for n in [63_400usize, 63_491, 63_550, 63_600, 63_747, 63_800, 127_000, 127_100] {
+        for all in [false, true] {
+            let noise = payload_kind(rng, 2, n);
+            let ops = vec![if all { Op::WriteAll(noise) } else { Op::Write(noise) }, Op::Flush, Op::Drain(1), Op::DropWriter, Op::Drain(1), Op::Poll(1)];
+            let mut c = base(4096, ops, format!("G:c09 one-large-write-then-flush n={} write_all={}", n, all));
+            c.accept_encoding = Some(b"gzip".to_vec());
+            c.gz_level = 6;
+            emit(c);
+        }
+    }
     gen_random(rng, if thorough { 10000 } else { 800 }, false, true, emit);
 }
 
